@@ -42,8 +42,13 @@ Conventions implemented (each is a clause of C10):
   represented in the line's frame (e.g. `3"` in `image`, `10i` in `fk5`, physical `p`),
   produce no region and do not touch the state (an unsupported frame only clears the frame).
 
+* composite: `# composite(x,y,θ) || composite=1 props` opens a composite; the following lines
+  that end in `||` and the first line that does not (the LAST member) belong to it; members get
+  the composite's properties between the global and their own (global < composite < sign <
+  local); after the last member the composite's properties are gone; a new header replaces them;
+
 Outside the grammar (no statement is made about them; `parseStmt` maps them to `junk`, which
-is ignored): `composite`, the `# text(...)` spelling, `box`/`ellipse` without an angle,
+is ignored): the `# text(...)` spelling, `box`/`ellipse` without an angle,
 wrong parameter counts, text that contains its own closing delimiter, valueless flags.
 -/
 import Mathlib.Data.Rat.Defs
@@ -84,6 +89,7 @@ compass, projection, panda, epanda, bpanda; `other`: not a DS9 keyword (outside 
 inductive Word
   | frame (k : FrameKw) | badFrame
   | shape (s : Shape) | badShape
+  | composite
   | global | other
 deriving DecidableEq, Repr
 
@@ -118,6 +124,7 @@ inductive Tok
   | word (w : Word)
   | num (n : Num)
   | hash
+  | bars                      -- `||`: the line belongs to a composite and the composite goes on
   | kv (p : KV)
   | note (s : String)         -- free comment text
 deriving DecidableEq, Repr
@@ -363,17 +370,25 @@ inductive Stmt
   | blank | comment
   | frame (k : FrameKw) | badFrame
   | global (kvs : List KV)
-  | region (sg : Sign) (s : Shape) (args : List Num) (kvs : List KV)
-  | badShape
+  | region (sg : Sign) (s : Shape) (args : List Num) (kvs : List KV)   -- region line NOT followed by `||`
+  | member (sg : Sign) (s : Shape) (args : List Num) (kvs : List KV)   -- region line followed by `||`
+  | composite (kvs : List KV)                                         -- `# composite(x,y,θ) || composite=1 …`
+  | badShape                                                          -- unsupported shape, no `||`
+  | badMember                                                         -- unsupported shape followed by `||`
   | junk
 deriving DecidableEq, Repr
 
+/-- `comp`: the properties of the composite that is being read (`[]` outside a composite). -/
 structure State where
   frame : Option Frame
   globals : List KV
+  comp : List KV
 deriving DecidableEq, Repr
 
-def init : State := ⟨none, []⟩
+def init : State := ⟨none, [], []⟩
+
+/-- the properties a composite header hands to its members (`composite=1` itself is not one). -/
+def compProps (kvs : List KV) : List KV := kvs.filter fun p => p.key ≠ "composite"
 
 def regionsOf (f : Frame) (sg : Sign) (s : Shape) (args : List Num) (loc glob : List KV) :
     List Region :=
@@ -383,15 +398,23 @@ def regionsOf (f : Frame) (sg : Sign) (s : Shape) (args : List Num) (loc glob : 
 def emit (st : State) : Stmt → List Region
   | .region sg s args kvs =>
     match st.frame with
-    | some f => regionsOf f sg s args kvs st.globals
+    | some f => regionsOf f sg s args kvs (effective st.comp st.globals)
+    | none => []
+  | .member sg s args kvs =>
+    match st.frame with
+    | some f => regionsOf f sg s args kvs (effective st.comp st.globals)
     | none => []
   | _ => []
 
 /-- state after one statement. -/
 def next (st : State) : Stmt → State
-  | .frame k => ⟨some k.frame, st.globals⟩
-  | .badFrame => ⟨none, st.globals⟩
-  | .global kvs => ⟨st.frame, kvs ++ st.globals⟩
+  | .frame k => { st with frame := some k.frame }
+  | .badFrame => { st with frame := none }
+  | .global kvs => { st with globals := kvs ++ st.globals }
+  | .composite kvs => { st with comp := compProps kvs }
+  -- a line that is not followed by `||` is the last member: the composite ends after it
+  | .region _ _ _ _ => { st with comp := [] }
+  | .badShape => { st with comp := [] }
   | _ => st
 
 def run : State → List Stmt → List Region
@@ -436,12 +459,16 @@ def parseBody (sg : Sign) : List Tok → Stmt
     match (leadNums rest).2 with
     | [] => .region sg s (leadNums rest).1 []
     | .hash :: ps => .region sg s (leadNums rest).1 (kvsOf ps)
+    | [.bars] => .member sg s (leadNums rest).1 []
+    | .bars :: .hash :: ps => .member sg s (leadNums rest).1 (kvsOf ps)
     | _ => .junk
-  | .word .badShape :: _ => .badShape
+  | .word .badShape :: rest => if rest.contains .bars then .badMember else .badShape
   | _ => .junk
 
 def parseStmt : List Tok → Stmt
   | [] => .blank
+  | .hash :: .word .composite :: rest => .composite (kvsOf rest)
+  | .word .composite :: rest => .composite (kvsOf rest)
   | .hash :: _ => .comment
   | .word (.frame k) :: _ => .frame k
   | .word .badFrame :: _ => .badFrame
@@ -476,6 +503,7 @@ def badShapeNames : List String :=
 def classify (s : String) : Word :=
   let l := s.toLower
   if l = "global" then .global else
+  if l = "composite" then .composite else
   match frameKwTable.lookup l with
   | some k => .frame k
   | none =>
@@ -568,6 +596,10 @@ def readNum (neg : Bool) (cs : List Char) : Num × List Char :=
     | none => (.dec (sgn * a) .none, r)
   | [] => (.dec (sgn * a) .none, [])
 
+def startsWithAlpha : List Char → Bool
+  | c :: _ => c.isAlpha
+  | [] => false
+
 def isNumWord (w : List Char) : Bool :=
   !w.isEmpty && w.all fun c => c.isDigit || c = '.' || c = '-' || c = '+'
 
@@ -594,7 +626,10 @@ def lexAux : ℕ → LexMode → Bool → List Char → List Tok
     else if c = ';' then .semi :: lexAux fuel .shape true cs
     else if isBlank c then lexAux fuel mode start cs
     else if c = '#' then
-      if start then
+      if start && classify (String.ofList ((cs.dropWhile isBlank).takeWhile Char.isAlpha)) = .composite then
+        -- `# composite(...)`: DS9 writes the composite header behind a `#`
+        .hash :: lexAux fuel .shape false cs
+      else if start then
         -- comment: to the end of the physical line
         let body := cs.takeWhile (· ≠ '\n')
         let rest := cs.dropWhile (· ≠ '\n')
@@ -604,7 +639,13 @@ def lexAux : ℕ → LexMode → Bool → List Char → List Tok
     else
       match mode with
       | .shape =>
-        if c = '(' then .lpar :: lexAux fuel .shape false cs
+        if c = '|' then
+          match cs with
+          | '|' :: r =>
+            -- after `||` a composite header continues with its properties, a member line with `# …` or nothing
+            .bars :: lexAux fuel (if startsWithAlpha (r.dropWhile isBlank) then .props else .shape) false r
+          | _ => lexAux fuel .shape false cs
+        else if c = '(' then .lpar :: lexAux fuel .shape false cs
         else if c = ')' then .rpar :: lexAux fuel .shape false cs
         else if c = ',' then .comma :: lexAux fuel .shape false cs
         else if c.isAlpha then
